@@ -125,6 +125,7 @@ def run_property(prop, tier, seed):
     digests = set()
     nontrivial = 0
     traces_validated = 0
+    inconclusive = 0
     samples = []
     batch_stats = []
     corr_fail = None     # (batch, name)
@@ -162,6 +163,8 @@ def run_property(prop, tier, seed):
                 dis = prop.agree(b, name, lines, mout, io)
                 if dis is None:
                     traces_validated += 1
+                elif dis.startswith("INCONCLUSIVE:"):
+                    inconclusive += 1
                 else:
                     nbad += 1
                     if prop.spec_is_oracle and not dis.startswith("HIDDEN:"):
@@ -199,7 +202,7 @@ def run_property(prop, tier, seed):
                 if any(("illegal" in x or "CRASH" in x) for v in m.values() for x in v):
                     return None      # the shrunk script is no longer a legal program
                 w = prop.agree(b, "s", cand, m, o)
-                if w and w.startswith("HIDDEN:"):
+                if w and w.startswith(("HIDDEN:", "INCONCLUSIVE:")):
                     w = None     # a hidden-state disagreement is not a failing input
             w = w or prop.oracle(b, "s", cand, o)
             if w and prop.known_class(b, "s", cand, o, w) != prop.known_class(b, name, lines, io, why):
@@ -233,7 +236,8 @@ def run_property(prop, tier, seed):
                 if any("harness-error" in x for x in o):
                     return False
                 m = prop.run_model(b, [("s", cand)], {"s": o}, 1)
-                return prop.agree(b, "s", cand, m, o) is not None
+                w = prop.agree(b, "s", cand, m, o)
+                return w is not None and not w.startswith("INCONCLUSIVE:")
             small = C.shrink(lines, still)
             o2 = C.run_sharded(C.IMPL_RUN, b.mode, [("s", small)], 120, 1).get("s", ["MISSING"])
             m2 = prop.run_model(b, [("s", small)], {"s": o2}, 1).get("s", ["MISSING"])
@@ -269,6 +273,7 @@ def run_property(prop, tier, seed):
         "print_assumptions_closed": pr.get("closed", []),
         "evaluations": evaluations, "distinct_nontrivial": nontrivial,
         "traces_validated_against_impl": traces_validated,
+        "inconclusive_order_search_budget_exhausted": inconclusive,
         "rule": prop.rule, "samples": samples, "batches": batch_stats,
         "exhaustive": all(b["exhaustive"] for b in batch_stats) if batch_stats else False,
         "known_findings_hit": sorted(seen_cls),
